@@ -232,7 +232,8 @@ def r5(ctx):
                     colour_ok = True
                 if cd.get(t[3][1]) not in (turn, None) and same:
                     colour_ok = True
-            if t[0] == "eq" and set((t[1], t[2])) == {("field", payload, 0), ("field", slf, "turn")} and v == 0:
+            inner_c, neg_c = (t[2], True) if (t[0] == "un" and t[1] == "Not") else (t, False)
+            if inner_c[0] == "eq" and set((inner_c[1], inner_c[2])) == {("field", payload, 0), ("field", slf, "turn")} and ((v == 1) if neg_c else (v == 0)):
                 colour_ok = True
             if t == ("discr", ("field", payload, 1)) and v == "Pawn":
                 piece_ok = True
